@@ -82,6 +82,9 @@ struct Plan {
     renew: Option<usize>,
     /// after everything ended: this many further rounds of (renewal tasks fire)
     tail_renewals: usize,
+    /// object-store backend only: schedule the metadata client's own GET/PUT requests one by one
+    /// (CAS loops of the two compactors interleave, conflict and retry) instead of whole operations
+    raw: bool,
 }
 
 impl Plan {
@@ -95,7 +98,7 @@ impl Plan {
             "script": self.script.iter().map(|(c, n)| json!([c, n])).collect::<Vec<_>>(),
             "fault": self.fault.map(|(i, k)| json!([i, k])), "crash": self.crash,
             "tick": self.tick.map(|(i, d)| json!([i, d])), "renew": self.renew,
-            "tail_renewals": self.tail_renewals,
+            "tail_renewals": self.tail_renewals, "raw": self.raw,
         })
     }
     fn from_json(v: &Value) -> Plan {
@@ -124,6 +127,7 @@ impl Plan {
             tick: pair("tick").map(|(i, d)| (i as usize, d)),
             renew: v["renew"].as_u64().map(|x| x as usize),
             tail_renewals: u("tail_renewals") as usize,
+            raw: v["raw"].as_bool().unwrap_or(false),
         }
     }
 }
@@ -356,7 +360,14 @@ fn spawn_compactor(env: &Env, plan: &Plan, comp: usize, client: usize, cycles: u
         // metadata operation is one atomic step of the schedule
         None => Arc::new(ObjectStoreMetadataClient::new(env.hub.client(100 + client), s3cfg())),
     };
-    let gate = Arc::new(MetaGate::new(inner, env.hub.clone(), client, env.shared.clone()));
+    let gate = if plan.raw && env.local.is_none() {
+        // raw mode: the metadata client's requests go through the compactor's own scheduled handle
+        let inner: Arc<dyn MetadataClient> = Arc::new(ObjectStoreMetadataClient::new(env.hub.client(client), s3cfg()));
+        let renew: Arc<dyn MetadataClient> = Arc::new(ObjectStoreMetadataClient::new(env.hub.client(16 + client), s3cfg()));
+        Arc::new(MetaGate::raw(inner, renew, env.hub.clone(), client, env.shared.clone()))
+    } else {
+        Arc::new(MetaGate::new(inner, env.hub.clone(), client, env.shared.clone()))
+    };
     let cfg = CompactorConfig {
         l0_merge_threshold: plan.threshold,
         l0_target_size: 1 << 20,
@@ -516,6 +527,8 @@ async fn run_plan(plan: &Plan) -> RunOut {
     let mut crash_done = false;
     let mut guard = 0usize;
     let mut script: Vec<(usize, usize)> = plan.script.clone();
+    let mut op_fault: HashMap<usize, char> = HashMap::new();
+    let mut processed: HashMap<usize, usize> = HashMap::new();
 
     for inc in incs.iter_mut() {
         drain(&mut ctl, inc, &mut out).await;
@@ -587,9 +600,13 @@ async fn run_plan(plan: &Plan) -> RunOut {
         } else {
             (None, 0, false)
         };
+        // raw mode: one GET/PUT of a metadata operation's CAS loop
+        let meta_sub = plan.raw && req.path.starts_with("metadata");
+        let can_fault = can_fault || meta_sub;
+        let positional = label.is_some() || meta_sub;
 
         // scheduled events that come before this modelled request
-        if label.is_some() {
+        if positional {
             if let Some((at, d)) = plan.tick {
                 if !tick_done && at == modelled && !plan.local {
                     tick_done = true;
@@ -640,7 +657,7 @@ async fn run_plan(plan: &Plan) -> RunOut {
             }
             faultable += 1;
         }
-        if label.is_some() {
+        if positional {
             modelled += 1;
             if let Some((c, n)) = script.first_mut() {
                 if *c == comp && *n > 0 {
@@ -682,6 +699,105 @@ async fn run_plan(plan: &Plan) -> RunOut {
         ctl.step(client, action).await;
         let cycle_err = drain(&mut ctl, &mut incs[pick], &mut out).await;
 
+        if meta_sub && action != Action::Proceed && rec.is_some() {
+            // which kind of fault the running metadata operation suffered
+            let took_effect = {
+                let log = hub.log.lock().unwrap();
+                log[log_before..].iter().any(|e| e.info.client == client && e.info.path == req.path && e.info.verb == "PUT" && e.ok)
+            };
+            op_fault.insert(client, if action == Action::FailAfter && took_effect { 'a' } else { 'b' });
+        }
+        if plan.raw {
+            // metadata operations that completed during this step, in completion order
+            let finished: Vec<gate::CallRec> = {
+                let calls = env.shared.calls.lock().unwrap();
+                let mine: Vec<&gate::CallRec> = calls.iter().filter(|r| r.client == client).collect();
+                let from = *processed.get(&client).unwrap_or(&0);
+                let mut v = Vec::new();
+                for r in mine.iter().skip(from) {
+                    if !r.done {
+                        break;
+                    }
+                    v.push((*r).clone());
+                }
+                v
+            };
+            *processed.entry(client).or_insert(0) += finished.len();
+            for r in finished {
+                let f = if r.returned_ok {
+                    op_fault.remove(&client);
+                    'o'
+                } else if let Some(c) = op_fault.remove(&client) {
+                    c
+                } else if r.error.contains("retries") {
+                    'b'
+                } else {
+                    'o'
+                };
+                let effect = r.returned_ok || f == 'a';
+                let status = if r.returned_ok { 0 } else if cycle_err { 1 } else { 2 };
+                let mut arg: u64 = 0;
+                let (lab, kind): (Option<String>, u64) = match r.op {
+                    "list" => (if r.returned_ok { Some(format!("l {}", comp)) } else { None }, 1),
+                    "scavenge" => (if effect { Some(format!("v {}", comp)) } else { None }, 14),
+                    "acquire" => {
+                        let g: Vec<String> = r.paths.iter().map(|p| env.pid_known(p).to_string()).collect();
+                        if r.returned_ok {
+                            arg = env.lid(&r.lease_out);
+                            incs[pick].in_group = true;
+                        } else if f == 'a' {
+                            // the lease was stored although the caller saw an error
+                            let ls = env.read_leases().await;
+                            let fresh: Vec<String> = ls.leases.keys().filter(|k| !env.lease_ids.contains_key(*k)).cloned().collect();
+                            if let Some(k) = fresh.first() {
+                                arg = env.lid(k);
+                            }
+                        }
+                        (Some(format!("s {} {} {}", comp, f, g.join(","))), 2)
+                    }
+                    "job" => (Some(format!("x {} {}", comp, f)), 3),
+                    "register" => {
+                        arg = env.pid_known(&r.target);
+                        (Some(format!("x {} {}", comp, f)), 6)
+                    }
+                    "complete" => {
+                        arg = env.pid_known(&r.target);
+                        if effect {
+                            out.merges += 1;
+                        }
+                        (Some(format!("x {} {}", comp, f)), 7)
+                    }
+                    "status" => (Some(format!("x {} {}", comp, f)), if r.failed_status { 10 } else { 8 }),
+                    "complete_lease" => {
+                        arg = env.lease_ids.get(&r.lease).copied().unwrap_or(999_999);
+                        incs[pick].in_group = false;
+                        (Some(format!("x {} {}", comp, f)), 9)
+                    }
+                    "fail_lease" => {
+                        arg = env.lease_ids.get(&r.lease).copied().unwrap_or(999_999);
+                        incs[pick].in_group = false;
+                        (Some(format!("x {} {}", comp, f)), 11)
+                    }
+                    _ => (None, 0),
+                };
+                let Some(lab) = lab else { continue };
+                let o = env.observe().await;
+                out.labels.push(lab);
+                let st = if kind == 1 || kind == 14 { 0 } else { status };
+                out.tokens.push(format!("{}:{}:{}@{}", kind, arg, st, env.show(&o)));
+                let quiescent = !incs.iter().any(|i| i.in_group);
+                let at = format!("after request {}", out.labels.len());
+                check_oracle(&initial, &o, quiescent, &mut out, &at);
+                if kind == 7 && effect {
+                    let want = r.paths.iter().filter_map(|p| levels_before.get(p)).max().copied().unwrap_or(0) + 1;
+                    let got = o.cat.get(&r.target).map(|x| x.0);
+                    if got != Some(want) {
+                        out.oracle.push(format!("level rule: target swapped in at level {:?}, expected {}", got, want));
+                    }
+                }
+                prev = o;
+            }
+        }
         let Some(label) = label else { continue };
         // outcome of the request
         let rec_after = {
@@ -755,6 +871,13 @@ async fn run_plan(plan: &Plan) -> RunOut {
         renewal_round(&mut env, &mut ctl, &incs, &mut out, &mut prev).await;
         let after = env.shared.calls.lock().unwrap().iter().filter(|r| r.op == "renew").count();
         out.renew_calls_after_end += after - before;
+    }
+    if out.renew_calls_after_end > 0 {
+        // every group has ended (regularly, with an error, or by a crash): no renewal task may be left
+        out.oracle.push(format!(
+            "LEAK: {} lease renewal call(s) after every compaction cycle had ended: a renewal task outlived its group",
+            out.renew_calls_after_end
+        ));
     }
     for i in incs.iter() {
         i.gate.dead.store(true, Ordering::SeqCst);
@@ -885,6 +1008,7 @@ fn gen_plan(rng: &mut Rng, thorough: bool) -> Plan {
         tick: None,
         renew: None,
         tail_renewals: 0,
+        raw: !local && rng.chance(1, 2),
     }
 }
 
@@ -893,7 +1017,7 @@ fn corpus() -> Vec<(&'static str, Plan)> {
     let base = Plan {
         local: true, threshold: 2, l1_target: 100_000, l2_target: 100_000, max_levels: 2, grace_secs: 300,
         chunks: vec![c(0, &[1, 2]), c(0, &[3, 4]), c(0, &[6, 5])], ncomp: 1, cycles: 1, restart_cycles: 1,
-        sched_seed: 1, policy: 1, script: vec![], fault: None, crash: None, tick: None, renew: None, tail_renewals: 0,
+        sched_seed: 1, policy: 1, script: vec![], fault: None, crash: None, tick: None, renew: None, tail_renewals: 0, raw: false,
     };
     let mut v = Vec::new();
     // the case of the fixed finding 4d073e9: three L0 chunks in one hour, one cycle
@@ -932,7 +1056,7 @@ fn corpus() -> Vec<(&'static str, Plan)> {
     v.push(("k3-lease-expired-s3", Plan { local: false, chunks: two.clone(), ncomp: 2, tick: Some((8, 301)), script: vec![(1, 2), (0, 6), (1, 100), (0, 100)], ..base.clone() }));
     // the same with the renewal task firing in time: the second compactor is refused
     v.push(("k3-lease-renewed-s3", Plan { local: false, chunks: two.clone(), ncomp: 2, tick: Some((8, 200)), renew: Some(8), script: vec![(1, 2), (0, 6), (1, 100), (0, 100)], ..base.clone() }));
-    // K4: error at create_compaction_job leaks the renewal task: the lease is renewed for ever
+    // K4 (fixed by 00081bd): an error at create_compaction_job used to leak the renewal task (lease renewed for ever)
     for (name, local) in [("k4-job-error-local", true), ("k4-job-error-s3", false)] {
         v.push((name, Plan { local, chunks: two.clone(), fault: Some((1, 1)), cycles: 2, tail_renewals: 3, ..base.clone() }));
     }
@@ -941,6 +1065,11 @@ fn corpus() -> Vec<(&'static str, Plan)> {
     for (name, local) in [("k5-unswapped-target-local", true), ("k5-unswapped-target-s3", false)] {
         v.push((name, Plan { local, chunks: vec![c(1, &[1, 2]), c(1, &[3])], l1_target: 150, threshold: 1, ncomp: 2, script: vec![(0, 9), (1, 100), (0, 100)], ..base.clone() }));
     }
+    // raw mode (object-store backend): every GET / conditional PUT of the metadata operations is a step of its own
+    v.push(("raw-l0-merge-s3", Plan { local: false, raw: true, ..base.clone() }));
+    v.push(("raw-two-compactors-alternating-s3", Plan { local: false, raw: true, ncomp: 2, policy: 2, chunks: vec![c(0, &[1, 2]), c(0, &[3, 4]), c(1, &[5]), c(1, &[6])], l1_target: 150, ..base.clone() }));
+    v.push(("raw-two-compactors-random-s3", Plan { local: false, raw: true, ncomp: 2, policy: 0, sched_seed: 11, cycles: 2, chunks: vec![c(0, &[1, 2]), c(0, &[3, 4]), c(1, &[5]), c(1, &[6])], l1_target: 150, ..base.clone() }));
+    v.push(("raw-stale-list-s3", Plan { local: false, raw: true, chunks: two.clone(), ncomp: 2, script: vec![(1, 2), (0, 100), (1, 100)], ..base.clone() }));
     v
 }
 
@@ -975,9 +1104,9 @@ fn main() {
         let b = Plan {
             local: true, threshold: 2, l1_target: 150, l2_target: 100_000, max_levels: 2, grace_secs: 0,
             chunks: vec![c(0, &[1, 2]), c(0, &[4, 3]), c(1, &[5]), c(1, &[6, 7])], ncomp: 1, cycles: 2, restart_cycles: 1,
-            sched_seed: 7, policy: 1, script: vec![], fault: None, crash: None, tick: None, renew: None, tail_renewals: 0,
+            sched_seed: 7, policy: 1, script: vec![], fault: None, crash: None, tick: None, renew: None, tail_renewals: 0, raw: false,
         };
-        let mut v = vec![b.clone(), Plan { local: false, ..b.clone() }];
+        let mut v = vec![b.clone(), Plan { local: false, ..b.clone() }, Plan { local: false, raw: true, cycles: 1, ..b.clone() }];
         if thorough {
             v.push(Plan { chunks: vec![c(0, &[1]), c(0, &[2]), c(0, &[3]), c(2, &[4]), c(2, &[5])], l2_target: 150, threshold: 3, ..b.clone() });
             v.push(Plan { local: false, chunks: vec![c(0, &[1]), c(0, &[2]), c(0, &[3]), c(2, &[4]), c(2, &[5])], l2_target: 150, threshold: 3, ..b.clone() });
@@ -1000,7 +1129,7 @@ fn main() {
     }
 
     // random scenarios
-    let nrand = if thorough { 1500 } else { 110 };
+    let nrand = if thorough { 3000 } else { 400 };
     for i in 0..nrand {
         let mut p = gen_plan(&mut rng, thorough);
         let probe_len = 24 + p.chunks.len() * 3;
@@ -1016,15 +1145,26 @@ fn main() {
         if !p.local && rng.chance(1, 4) {
             p.tick = Some((rng.below(probe_len as u64) as usize, *rng.pick(&[100i64, 250, 301, 700])));
         }
-        if rng.chance(1, 6) {
+        if !p.raw && rng.chance(1, 6) {
             p.renew = Some(rng.below(probe_len as u64) as usize);
         }
-        if rng.chance(1, 8) {
+        if !p.raw && rng.chance(1, 3) {
             p.tail_renewals = 1;
+        }
+        if p.raw {
+            // positions count single object-store requests here: roughly three per metadata operation
+            let scale = |x: usize| x * 3;
+            p.fault = p.fault.map(|(i, k)| (scale(i), k));
+            p.crash = p.crash.map(scale);
+            p.tick = p.tick.map(|(i, d)| (scale(i), d));
+            p.script = p.script.iter().map(|(c, n)| (*c, scale(*n))).collect();
         }
         plans.push((format!("random:{}", i), p));
     }
 
+    let mut unclassified: Vec<(String, Value)> = Vec::new();
+    let mut classified: Vec<(String, String, Value)> = Vec::new();
+    let mut per_class: BTreeMap<String, u32> = BTreeMap::new();
     let only = args.get("only").map(|s| s.to_string());
     let verbose = args.get("verbose").is_some();
     for (name, plan) in plans.iter() {
@@ -1040,7 +1180,7 @@ fn main() {
         report.impl_runs += 1;
         let kind = name.split(':').next().unwrap_or("");
         report.bump(&format!("kind.{}", kind));
-        report.bump(if plan.local { "backend.in-memory" } else { "backend.object-store" });
+        report.bump(if plan.local { "backend.in-memory" } else if plan.raw { "backend.object-store(request-level)" } else { "backend.object-store" });
         report.bump(&format!("compactors.{}", plan.ncomp));
         if plan.fault.is_some() { report.bump("with.fault"); }
         if plan.crash.is_some() { report.bump("with.crash"); }
@@ -1074,8 +1214,24 @@ fn main() {
             }
             // only the duplicate condition has known classes; a lost row or a wrong level never has
             let class = if head == "DUP" { class_name(&vd.class) } else { "" };
-            report.oracle_violation(class, o, plan.to_json());
+            if class.is_empty() {
+                unclassified.push((o.clone(), plan.to_json()));
+            } else {
+                let n = per_class.entry(class.to_string()).or_insert(0u32);
+                *n += 1;
+                report.bump(&format!("duplicates-in-known-class.{}", class));
+                if *n <= 6 {
+                    classified.push((class.to_string(), o.clone(), plan.to_json()));
+                }
+            }
         }
+    }
+    // the report keeps a bounded number of violations: unclassified ones first
+    for (o, c) in unclassified {
+        report.oracle_violation("", &o, c);
+    }
+    for (k, o, c) in classified {
+        report.oracle_violation(&k, &o, c);
     }
     report.write(&args.out);
 }
